@@ -215,156 +215,216 @@ theorem before_suffix : ∀ (pre : List Loc) (l p : Loc) (post : List Loc),
       simp only [List.cons_append, List.cons.injEq] at h
       exact before_suffix pre m p post h.2
 
-/-! ### the loops are `find?` on `before` -/
+/-! ### the loops are a stopping search on `before` -/
 
-theorem getPrev_eq_find (sp : StripFn) (c : Test) : ∀ (fuel : Nat) (l : Loc), l.before.length < fuel →
-    getPreviousNodeAny sp c none fuel l = l.before.find? (patMatches sp c)
+/-- first element satisfying `mt` before any element satisfying `stop` -/
+def findStop (stop mt : Loc → Bool) : List Loc → Option Loc
+  | [] => none
+  | x :: xs => if stop x then none else if mt x then some x else findStop stop mt xs
+
+/-- the step leads to the head of `before` -/
+theorem step_shape (fuel : Nat) (l m : Loc) (rest : List Loc) (hb : l.before = m :: rest)
+    (h : l.before.length < fuel + 1) : stepBack fuel l = some m := by
+  unfold stepBack
+  cases hp : l.prevSibling with
+  | none =>
+    have hb' := before_of_noPrev l hp
+    rw [hb] at hb'
+    cases hpar : l.parent? with
+    | none => simp [hpar] at hb'
+    | some par =>
+      simp only [hpar] at hb'
+      cases hd : par.isDocument
+      · simp only [hd, Bool.false_eq_true, if_false, List.cons.injEq] at hb'
+        simp [hb'.1]
+      · simp [hd] at hb'
+  | some sib =>
+    obtain ⟨hb', hd⟩ := before_of_prevSibling l sib hp
+    have hlen : sib.descendants.length ≤ fuel := by
+      rw [hb'] at h; simp [Loc.descOrSelf] at h; omega
+    rw [dive fuel sib hlen hd, hb] at hb'
+    simp only [List.cons.injEq] at hb'
+    simp [hb'.1]
+
+/-- when nothing lies before `l` (its parent is the document, or it is the document), the step leads nowhere or
+to the document node -/
+theorem step_empty (fuel : Nat) (l : Loc) (hb : l.before = []) :
+    stepBack fuel l = none ∨ ∃ d, stepBack fuel l = some d ∧ d.isDocument = true := by
+  unfold stepBack
+  cases hp : l.prevSibling with
+  | none =>
+    have hb' := before_of_noPrev l hp
+    rw [hb] at hb'
+    cases hpar : l.parent? with
+    | none => exact Or.inl rfl
+    | some par =>
+      simp only [hpar] at hb'
+      cases hd : par.isDocument
+      · simp [hd] at hb'
+      · exact Or.inr ⟨par, rfl, hd⟩
+  | some sib =>
+    obtain ⟨hb', _⟩ := before_of_prevSibling l sib hp
+    rw [hb] at hb'
+    simp [Loc.descOrSelf] at hb'
+
+theorem doc_no_step (fuel : Nat) (d : Loc) (hd : d.isDocument = true) : stepBack fuel d = none := by
+  have hpath : d.path = [] := by simpa [Loc.isDocument] using hd
+  simp [stepBack, Loc.prevSibling, Loc.precedingSiblings, Loc.parent?, Loc.parent, hpath]
+
+theorem doc_no_match (sp : StripFn) (f : Option Test) (c : Test) (d : Loc) (hd : d.isDocument = true) :
+    fromMatches sp f d = false ∧ patMatches sp c d = false := by
+  constructor
+  · cases f with
+    | none => rfl
+    | some t => simp [fromMatches, patMatches, hd]
+  · simp [patMatches, hd]
+
+theorem getPrev_doc (sp : StripFn) (c : Test) (f : Option Test) (fuel : Nat) (d : Loc) (hd : d.isDocument = true) :
+    getPreviousNodeAny sp c f fuel d = none := by
+  cases fuel with
+  | zero => rfl
+  | succ n =>
+    unfold getPreviousNodeAny
+    simp [doc_no_step n d hd]
+
+theorem getPrev_eq_findStop (sp : StripFn) (c : Test) (f : Option Test) : ∀ (fuel : Nat) (l : Loc),
+    l.before.length < fuel →
+    getPreviousNodeAny sp c f fuel l = findStop (fromMatches sp f) (patMatches sp c) l.before
   | 0, _, h => by omega
   | fuel + 1, l, h => by
     unfold getPreviousNodeAny
-    cases hp : l.prevSibling with
-    | none =>
-      have hb := before_of_noPrev l hp
-      cases hpar : l.parent? with
-      | none => simp [hpar] at hb; simp [hb]
-      | some par =>
-        simp only [hpar] at hb
-        have hfm : fromMatches sp none par = false := rfl
-        cases hd : par.isDocument
-        · simp only [hd, Bool.false_eq_true, if_false] at hb
-          simp only [hd, hfm, Bool.or_false, Bool.false_eq_true, if_false, hb, List.find?_cons]
-          cases hm : patMatches sp c par
-          · simp only [Bool.false_eq_true, if_false]
-            exact getPrev_eq_find sp c fuel par (by rw [hb] at h; simp at h; omega)
-          · simp
-        · simp only [hd, if_true] at hb
-          simp [hd, hb]
-    | some sib =>
-      obtain ⟨hb, hd⟩ := before_of_prevSibling l sib hp
-      have hlen : sib.descendants.length ≤ fuel := by
-        rw [hb] at h
-        simp [Loc.descOrSelf] at h
-        omega
-      have hdive := dive fuel sib hlen hd
-      rw [hdive] at hb
-      simp only [hb, List.find?_cons]
-      cases hm : patMatches sp c (deepestLast fuel sib)
+    cases hb : l.before with
+    | nil =>
+      rcases step_empty fuel l hb with h0 | ⟨d, h1, hd⟩
+      · rw [h0]; rfl
+      · rw [h1]
+        simp only [(doc_no_match sp f c d hd).1, (doc_no_match sp f c d hd).2, Bool.false_eq_true, if_false,
+          findStop]
+        exact getPrev_doc sp c f fuel d hd
+    | cons m rest =>
+      rw [step_shape fuel l m rest hb h]
+      have hm : m.before = rest := before_suffix [] l m rest (by simpa using hb)
+      simp only [findStop]
+      cases fromMatches sp f m
       · simp only [Bool.false_eq_true, if_false]
-        exact getPrev_eq_find sp c fuel _ (by rw [hb] at h; simp at h; omega)
-      · simp
+        cases patMatches sp c m
+        · simp only [Bool.false_eq_true, if_false]
+          rw [← hm]
+          exact getPrev_eq_findStop sp c f fuel m (by rw [hm]; rw [hb] at h; simp at h; omega)
+        · rfl
+      · rfl
 
-theorem findTarget_eq_find (sp : StripFn) (c : Test) : ∀ (fuel : Nat) (l : Loc), l.before.length < fuel →
-    findTargetAny sp c none fuel l = (l :: l.before).find? (patMatches sp c)
-  | 0, _, h => by omega
-  | fuel + 1, l, h => by
+theorem findTarget_doc (sp : StripFn) (c : Test) (f : Option Test) (fuel : Nat) (b : Bool) (d : Loc)
+    (hd : d.isDocument = true) : findTargetAny sp c f fuel b d = none := by
+  cases fuel with
+  | zero => rfl
+  | succ n =>
     unfold findTargetAny
-    simp only [fromMatches, Bool.false_eq_true, if_false, List.find?_cons]
-    cases hm : patMatches sp c l
+    simp [(doc_no_match sp f c d hd).1, (doc_no_match sp f c d hd).2, doc_no_step n d hd]
+
+theorem findTarget_eq (sp : StripFn) (c : Test) (f : Option Test) : ∀ (fuel : Nat) (l : Loc) (b : Bool),
+    l.before.length < fuel →
+    findTargetAny sp c f fuel b l =
+      if !b && fromMatches sp f l then none
+      else if patMatches sp c l then some l
+      else findStop (fromMatches sp f) (patMatches sp c) l.before
+  | 0, _, _, h => by omega
+  | fuel + 1, l, b, h => by
+    unfold findTargetAny
+    cases hfb : (!b && fromMatches sp f l)
     · simp only [Bool.false_eq_true, if_false]
-      cases hp : l.prevSibling with
-      | none =>
-        have hb := before_of_noPrev l hp
-        cases hpar : l.parent? with
-        | none => simp [hpar] at hb; simp [hb]
-        | some par =>
-          simp only [hpar] at hb
-          cases hd : par.isDocument
-          · simp only [hd, Bool.false_eq_true, if_false] at hb
-            rw [hb]
-            exact findTarget_eq_find sp c fuel par (by rw [hb] at h; simp at h; omega)
-          · -- the parent is the document node: nothing matches there and nothing lies before it
-            simp only [hd, if_true] at hb
-            rw [hb]
-            have hpath : par.path = [] := by simpa [Loc.isDocument] using hd
-            cases fuel with
-            | zero => rfl
-            | succ f =>
-              unfold findTargetAny
-              simp [fromMatches, patMatches, hd, Loc.prevSibling, Loc.precedingSiblings, Loc.parent?, Loc.parent, hpath]
-      | some sib =>
-        obtain ⟨hb, hd⟩ := before_of_prevSibling l sib hp
-        have hlen : sib.descendants.length ≤ fuel := by
-          rw [hb] at h
-          simp [Loc.descOrSelf] at h
-          omega
-        have hdive := dive fuel sib hlen hd
-        rw [hdive] at hb
-        rw [hb]
-        exact findTarget_eq_find sp c fuel _ (by rw [hb] at h; simp at h; omega)
+      cases hml : patMatches sp c l
+      · simp only [Bool.false_eq_true, if_false]
+        cases hb : l.before with
+        | nil =>
+          rcases step_empty fuel l hb with h0 | ⟨d, h1, hd⟩
+          · rw [h0]; rfl
+          · rw [h1]; simp only [findStop]; exact findTarget_doc sp c f _ _ d hd
+        | cons m rest =>
+          rw [step_shape fuel l m rest hb h]
+          have hm : m.before = rest := before_suffix [] l m rest (by simpa using hb)
+          have hlen : m.before.length < fuel := by rw [hm]; rw [hb] at h; simp at h; omega
+          simp only []
+          rw [findTarget_eq sp c f fuel m false hlen, hm]
+          simp [findStop]
+      · simp
     · simp
 
-theorem filter_length_of_find_none {α : Type} (p : α → Bool) (L : List α) (h : L.find? p = none) :
-    (L.filter p).length = 0 := by
-  have : L.filter p = [] := by
-    rw [List.filter_eq_nil_iff]
-    intro a ha
-    have := List.find?_eq_none.mp h a ha
-    simpa using this
-  simp [this]
+theorem findStop_none (stop mt : Loc → Bool) : ∀ L : List Loc, findStop stop mt L = none →
+    ((L.takeWhile fun x => !stop x).filter mt) = []
+  | [], _ => rfl
+  | x :: xs, h => by
+    simp only [findStop] at h
+    cases hs : stop x
+    · simp only [hs, Bool.false_eq_true, if_false] at h
+      cases hm : mt x
+      · simp only [hm, Bool.false_eq_true, if_false] at h
+        simp [List.takeWhile_cons, hs, List.filter_cons, hm, findStop_none stop mt xs h]
+      · simp [hm] at h
+    · simp [List.takeWhile_cons, hs]
 
-theorem find_split {α : Type} (p : α → Bool) : ∀ (L : List α) (x : α), L.find? p = some x →
-    ∃ pre post, L = pre ++ x :: post ∧ p x = true ∧ (pre.filter p) = []
-  | [], x, h => by simp at h
-  | a :: as, x, h => by
-    simp only [List.find?_cons] at h
-    cases ha : p a
-    · simp only [ha] at h
-      obtain ⟨pre, post, h1, h2, h3⟩ := find_split p as x h
-      exact ⟨a :: pre, post, by simp [h1], h2, by simp [List.filter_cons, ha, h3]⟩
-    · simp only [ha, Option.some.injEq] at h
-      subst h
-      exact ⟨[], as, rfl, ha, rfl⟩
+theorem findStop_some (stop mt : Loc → Bool) : ∀ (L : List Loc) (p : Loc), findStop stop mt L = some p →
+    ∃ pre post, L = pre ++ p :: post ∧ mt p = true ∧
+      ((L.takeWhile fun x => !stop x).filter mt) = p :: ((post.takeWhile fun x => !stop x).filter mt)
+  | [], _, h => by simp [findStop] at h
+  | x :: xs, p, h => by
+    simp only [findStop] at h
+    cases hs : stop x
+    · simp only [hs, Bool.false_eq_true, if_false] at h
+      cases hm : mt x
+      · simp only [hm, Bool.false_eq_true, if_false] at h
+        obtain ⟨pre, post, h1, h2, h3⟩ := findStop_some stop mt xs p h
+        exact ⟨x :: pre, post, by simp [h1], h2, by simp [List.takeWhile_cons, hs, List.filter_cons, hm, h3]⟩
+      · simp only [hm, if_true, Option.some.injEq] at h
+        subst h
+        exact ⟨[], xs, rfl, hm, by simp [List.takeWhile_cons, hs, List.filter_cons, hm]⟩
+    · simp [hs] at h
 
-theorem chainLength_eq (sp : StripFn) (c : Test) : ∀ (fuel : Nat) (t : Loc), t.before.length + 1 < fuel →
-    chainLength sp c none fuel t = 1 + (t.before.filter (patMatches sp c)).length
+theorem chainLength_eq (sp : StripFn) (c : Test) (f : Option Test) : ∀ (fuel : Nat) (t : Loc),
+    t.before.length + 1 < fuel →
+    chainLength sp c f fuel t
+      = 1 + ((t.before.takeWhile fun x => !fromMatches sp f x).filter (patMatches sp c)).length
   | 0, _, h => by omega
   | fuel + 1, t, h => by
     unfold chainLength
-    rw [getPrev_eq_find sp c fuel t (by omega)]
-    cases hf : t.before.find? (patMatches sp c) with
-    | none => simp [filter_length_of_find_none _ _ hf]
+    rw [getPrev_eq_findStop sp c f fuel t (by omega)]
+    cases hf : findStop (fromMatches sp f) (patMatches sp c) t.before with
+    | none => simp [findStop_none _ _ _ hf]
     | some p =>
-      obtain ⟨pre, post, h1, h2, h3⟩ := find_split _ _ _ hf
+      obtain ⟨pre, post, h1, h2, h3⟩ := findStop_some _ _ _ p hf
       have hpost : p.before = post := before_suffix pre t p post h1
       have hlen : p.before.length + 1 < fuel := by
         rw [hpost]; have := congrArg List.length h1; simp at this; omega
       simp only []
-      rw [chainLength_eq sp c fuel p hlen, hpost, h1]
-      simp only [List.filter_append, List.filter_cons, h2, h3, if_true, List.nil_append, List.length_cons]
+      rw [chainLength_eq sp c f fuel p hlen, hpost, h3]
+      simp only [List.length_cons]
       omega
 
-/-- the walk without `from` computes the Recommendation's count -/
-theorem numberAny_eq_spec (sp : StripFn) (c : Test) (fuel : Nat) (l : Loc) (h : l.before.length + 1 < fuel) :
-    numberAny sp c none fuel l = numberAnySpec sp c l := by
+/-- the walk computes the Recommendation's count, with or without `from` -/
+theorem numberAny_eq_spec (sp : StripFn) (c : Test) (f : Option Test) (fuel : Nat) (l : Loc)
+    (h : l.before.length + 1 < fuel) :
+    numberAny sp c f fuel l = numberAnySpec sp c f l := by
   unfold numberAny numberAnySpec
-  rw [findTarget_eq_find sp c fuel l (by omega)]
-  cases hf : (l :: l.before).find? (patMatches sp c) with
-  | none => simp [filter_length_of_find_none _ _ hf]
-  | some t =>
-    obtain ⟨pre, post, h1, h2, h3⟩ := find_split _ _ _ hf
-    simp only []
-    cases pre with
-    | nil =>
-      simp only [List.nil_append, List.cons.injEq] at h1
-      obtain ⟨rfl, hpost⟩ := h1
-      rw [chainLength_eq sp c fuel l (by omega)]
-      simp only [List.filter_cons, h2, if_true, List.length_cons]
-      omega
-    | cons a pre' =>
-      simp only [List.cons_append, List.cons.injEq] at h1
-      obtain ⟨rfl, hb⟩ := h1
-      have hpost : t.before = post := before_suffix pre' l t post hb
-      have hlen : t.before.length + 1 < fuel := by
-        rw [hpost]; have := congrArg List.length hb; simp at this; omega
-      rw [chainLength_eq sp c fuel t hlen, hpost, hb]
-      have ha : patMatches sp c l = false := by
-        cases hpa : patMatches sp c l
-        · rfl
-        · simp [List.filter_cons, hpa] at h3
-      have hpre : pre'.filter (patMatches sp c) = [] := by
-        simpa [List.filter_cons, ha] using h3
-      simp only [List.filter_cons, List.filter_append, ha, h2, hpre, if_true, Bool.false_eq_true, if_false,
-        List.nil_append, List.length_cons]
+  cases fuel with
+  | zero => omega
+  | succ n =>
+    rw [findTarget_eq sp c f (n + 1) l true (by omega)]
+    simp only [Bool.not_true, Bool.false_and, Bool.false_eq_true, if_false, List.filter_cons]
+    cases hm : patMatches sp c l
+    · simp only [Bool.false_eq_true, if_false]
+      cases hf : findStop (fromMatches sp f) (patMatches sp c) l.before with
+      | none => simp [findStop_none _ _ _ hf]
+      | some t =>
+        obtain ⟨pre, post, h1, h2, h3⟩ := findStop_some _ _ _ t hf
+        have hpost : t.before = post := before_suffix pre l t post h1
+        have hlen : t.before.length + 1 < n + 1 := by
+          rw [hpost]; have := congrArg List.length h1; simp at this; omega
+        simp only []
+        rw [chainLength_eq sp c f (n + 1) t hlen, hpost, h3]
+        simp only [List.length_cons]
+        omega
+    · simp only [if_true, List.length_cons]
+      rw [chainLength_eq sp c f (n + 1) l (by omega)]
       omega
 
 end XalanModel.C13
